@@ -66,6 +66,7 @@ type charCtor struct {
 	defKind                                string // "", num, bool, string
 	defBool                                bool
 	unit                                   string
+	updSame                                bool
 }
 
 type svcCtor struct {
@@ -150,6 +151,8 @@ func readChars() []charCtor {
 							}
 						}
 						switch lhs {
+						case "char.updateOnSameValue":
+							c.updSame = exprString(s.Rhs[0]) == "true"
 						case "char.Format":
 							c.format = consts[exprString(s.Rhs[0])]
 						case "char.Unit":
@@ -310,7 +313,7 @@ func genCatalog(dir string) {
 	b.WriteString("(** GENERATED by /verif/tools/translate from characteristic/*.go and service/*.go. Do not edit. *)\n")
 	b.WriteString("From Coq Require Import List NArith ZArith Bool.\nImport ListNotations.\nOpen Scope N_scope.\n\n")
 	b.WriteString("Definition num := (list N * Z * bool)%type.   (* canonical decimal text, value * 10^6, written as integer *)\n")
-	b.WriteString("Record char_ctor := mkCC { cc_name : list N; cc_embedded : list N; cc_type_used : list N; cc_type_declared : list N;\n  cc_format : list N; cc_perms : list (list N); cc_min : option num; cc_max : option num; cc_step : option num;\n  cc_default : option num; cc_default_kind : list N; cc_unit : list N }.\n")
+	b.WriteString("Record char_ctor := mkCC { cc_name : list N; cc_embedded : list N; cc_type_used : list N; cc_type_declared : list N;\n  cc_format : list N; cc_perms : list (list N); cc_min : option num; cc_max : option num; cc_step : option num;\n  cc_default : option num; cc_default_kind : list N; cc_unit : list N; cc_upd_same : bool }.\n")
 	b.WriteString("Record svc_ctor := mkSC { sc_name : list N; sc_type : list N; sc_has_base : bool; sc_base_ctor : list N; sc_chars : list (list N) }.\n\n")
 	b.WriteString("Definition char_ctors : list char_ctor := [\n")
 	for i, c := range chars {
@@ -318,8 +321,8 @@ func genCatalog(dir string) {
 		if i == len(chars)-1 {
 			sep = ""
 		}
-		fmt.Fprintf(&b, "  mkCC %s %s %s %s %s %s %s %s %s %s %s %s%s\n", coqBytes(c.name), coqBytes(c.embedded), coqBytes(c.typeValue), coqBytes(c.declValue),
-			coqBytes(c.format), coqStrList(c.perms), c.min.coq(), c.max.coq(), c.step.coq(), c.def.coq(), coqBytes(c.defKind), coqBytes(c.unit), sep)
+		fmt.Fprintf(&b, "  mkCC %s %s %s %s %s %s %s %s %s %s %s %s %v%s\n", coqBytes(c.name), coqBytes(c.embedded), coqBytes(c.typeValue), coqBytes(c.declValue),
+			coqBytes(c.format), coqStrList(c.perms), c.min.coq(), c.max.coq(), c.step.coq(), c.def.coq(), coqBytes(c.defKind), coqBytes(c.unit), c.updSame, sep)
 	}
 	b.WriteString("].\n\nDefinition svc_ctors : list svc_ctor := [\n")
 	for i, s := range svcs {
